@@ -1135,7 +1135,8 @@ pub struct TermProgram {
     /// repeat the transient fault every this many I/O calls (0 = once)
     #[serde(default)]
     pub fail_period: u16,
-    /// 0 = any write/fsync, 1 = record (data) writes only, 2 = journal writes only, 3 = fsyncs only
+    /// 0 = any write/fsync, 1 = data-area writes only, 2 = journal writes only, 3 = fsyncs only,
+    /// 5 = record writes only (markers keep working), 6 = marker writes only
     #[serde(default)]
     pub fail_site: u8,
     pub writers: u8,
@@ -1150,6 +1151,28 @@ pub struct TermProgram {
 }
 
 pub fn term_program_strategy() -> BoxedStrategy<TermProgram> {
+    // one program in four: several flush() callers and writers on a roomy device whose record
+    // writes fail 3-9 times in a row again and again (every batch attempt of some batch fails,
+    // its clean-up runs while other callers are inside flush), markers / journal / metadata work
+    let intermittent = term_program_general().prop_flat_map(|p| {
+        (Just(p), prop_oneof![Just(3u8), Just(6u8), Just(9u8)], 8u16..60, 2u8..4, 2u8..4, prop_oneof![Just(5u8), Just(5u8), Just(1u8), Just(6u8)]).prop_map(|(mut p, count, period, flushers, writers, site)| {
+            p.data_blocks = 500;
+            p.fail_from = 8 + (period % 24);
+            p.fail_count = count;
+            p.fail_period = period.max(count as u16 + 2);
+            p.fail_heals_after_ms = 0;
+            p.fail_site = site;
+            p.plain_io = true;
+            p.flushers = flushers;
+            p.writers = writers;
+            p.writer_ops = p.writer_ops.max(80);
+            p
+        })
+    });
+    prop_oneof![3 => term_program_general(), 1 => intermittent].boxed()
+}
+
+fn term_program_general() -> BoxedStrategy<TermProgram> {
     (
         (prop_oneof![Just(2u8), Just(4u8), Just(8u8), Just(16u8)], prop_oneof![3 => 20u16..60, 1 => Just(500u16)], any::<bool>(), any::<bool>()),
         (prop_oneof![3 => Just(0u16), 3 => 5u16..160], prop_oneof![Just(0u8), Just(1u8), Just(3u8), Just(3u8), Just(4u8), Just(9u8)], prop_oneof![Just(0u16), Just(30), Just(200)], prop_oneof![1 => Just(0u16), 2 => 7u16..90], prop_oneof![2 => Just(0u8), 3 => Just(1u8), 1 => Just(2u8), 1 => Just(3u8)]),
@@ -1206,7 +1229,7 @@ pub fn run_term_program(p: &TermProgram) -> TermOutcome {
     }
     if p.fail_from > 0 {
         let base = dev.lock().unwrap().io_calls;
-        dev.lock().unwrap().plan = Some(crate::trace::FaultPlan { from: if p.fail_site == 0 { base + p.fail_from as usize } else { (p.fail_from / 8) as usize }, count: if p.fail_count == 0 { usize::MAX } else { p.fail_count as usize }, mode: if p.fail_from % 2 == 0 { crate::trace::FaultMode::Before } else { crate::trace::FaultMode::After }, errno: libc::EIO, second: None, period: p.fail_period as usize, site: match p.fail_site { 1 => Some("data-write"), 2 => Some("journal-write"), 3 => Some("fsync"), _ => None } });
+        dev.lock().unwrap().plan = Some(crate::trace::FaultPlan { from: if p.fail_site == 0 { base + p.fail_from as usize } else { (p.fail_from / 8) as usize }, count: if p.fail_count == 0 { usize::MAX } else { p.fail_count as usize }, mode: if p.fail_from % 2 == 0 { crate::trace::FaultMode::Before } else { crate::trace::FaultMode::After }, errno: libc::EIO, second: None, period: p.fail_period as usize, site: match p.fail_site { 1 => Some("data-write"), 2 => Some("journal-write"), 3 => Some("fsync"), 5 => Some("record-write"), 6 => Some("marker-write"), _ => None } });
     }
     let ctl = Controller::new(p.schedule.clone());
     sched::install(Some(ctl.clone()));
@@ -1784,5 +1807,176 @@ pub fn run_sweep_program(p: &SweepProgram) -> SweepOutcome {
     env::reap(store, path);
     // the reaper drops the store (and stops the sweeper) on another thread; the global clock stays
     // set until the next program installs its own
+    out
+}
+
+// ------------------------------------------------------------------------------------------
+// C07M: explicit future timestamps racing automatic ones in the same clock shard
+// ------------------------------------------------------------------------------------------
+
+/// Rounds on fresh keys: the main thread publishes an explicit timestamp ahead of the wall clock
+/// while helper threads draw automatic timestamps (on the same key and on pools of other keys that
+/// collide into the same one of the 64 clock shards). After every round all threads are parked
+/// (quiescence) and the main thread issues an automatic call on the key: real-time order makes it
+/// the newest write, so it must be accepted and stamped above the explicit timestamp.
+#[derive(Clone, Debug, Serialize, Deserialize, PartialEq, Eq)]
+pub struct ClockProgram {
+    pub persistent: bool,
+    pub helpers: u8,
+    /// keys per helper pool
+    pub pool: u16,
+    /// helper 0 writes the round's own key with an automatic timestamp
+    pub same_key_helper: bool,
+    pub rounds: u16,
+    /// the explicit timestamps start this many seconds ahead of the wall clock
+    pub ahead_s: u32,
+    pub skew_seed: u64,
+    /// the quiescent automatic call: 0 insert, 1 delete, 2 insert_with_ttl? (unused when TTL off), 3 compare-and-swap
+    pub follow: u8,
+    /// helper writes per round
+    pub burst: u8,
+}
+
+pub fn clock_program_strategy() -> BoxedStrategy<ClockProgram> {
+    (proptest::bool::weighted(0.25), 1u8..4, prop_oneof![Just(1u16), 4u16..40, 40u16..300], proptest::bool::weighted(0.6), 60u16..400, prop_oneof![Just(1u32), Just(3600u32), Just(86_400u32 * 10)], any::<u64>(), 0u8..4, 1u8..6)
+        .prop_map(|(persistent, helpers, pool, same_key_helper, rounds, ahead_s, skew_seed, follow, burst)| ClockProgram { persistent, helpers, pool, same_key_helper, rounds, ahead_s, skew_seed, follow, burst })
+        .boxed()
+}
+
+#[derive(Default)]
+pub struct ClockOut {
+    pub failure: Option<(String, String)>,
+    pub rounds: u64,
+    pub explicit_accepted: u64,
+    pub helper_writes: u64,
+    pub same_key_auto_accepted: u64,
+}
+
+pub fn run_clock_program(p: &ClockProgram) -> ClockOut {
+    use std::sync::atomic::{AtomicBool, AtomicU64, Ordering};
+    use std::sync::{Arc, Barrier};
+    let mut out = ClockOut::default();
+    feoxdb::verif::set_global_clock(None);
+    feoxdb::verif::set_thread_clock(None);
+    sched::install(None);
+    let path = p.persistent.then(|| env::fresh_path("clock"));
+    let cfg = Config { persistent: p.persistent, version: 3, cache: false, ttl: false, dev: DevSize::Large, max_memory: None, plain_io: true, legacy_plain_meta: false, visible_cpus: 4 };
+    let store = match seq::open_store(&cfg, path.as_deref()) {
+        Ok(s) => Arc::new(s),
+        Err(e) => {
+            out.failure = Some(("open-failed".into(), format!("{e:?}")));
+            return out;
+        }
+    };
+    let helpers = p.helpers.max(1) as usize;
+    let start = Arc::new(Barrier::new(helpers + 1));
+    let end = Arc::new(Barrier::new(helpers + 1));
+    let stop = Arc::new(AtomicBool::new(false));
+    let round_no = Arc::new(AtomicU64::new(0));
+    let writes = Arc::new(AtomicU64::new(0));
+    let same_ok = Arc::new(AtomicU64::new(0));
+    let mut handles = Vec::new();
+    for h in 0..helpers {
+        let (store, start, end, stop, round_no, writes, same_ok) = (store.clone(), start.clone(), end.clone(), stop.clone(), round_no.clone(), writes.clone(), same_ok.clone());
+        let (pool, burst, same, seed) = (p.pool.max(1) as u64, p.burst.max(1) as u64, p.same_key_helper && h == 0, p.skew_seed ^ (h as u64 + 1).wrapping_mul(0x9E37_79B9_7F4A_7C15));
+        handles.push(std::thread::spawn(move || {
+            let mut x = seed | 1;
+            loop {
+                start.wait();
+                if stop.load(Ordering::Acquire) {
+                    break;
+                }
+                let r = round_no.load(Ordering::Acquire);
+                x ^= x << 13;
+                x ^= x >> 7;
+                x ^= x << 17;
+                for _ in 0..(x % 300) {
+                    std::hint::spin_loop();
+                }
+                for i in 0..burst {
+                    if same && i == 0 {
+                        if store.insert(format!("ck{r}").as_bytes(), b"auto-by-helper").is_ok() {
+                            same_ok.fetch_add(1, Ordering::Relaxed);
+                        }
+                    } else {
+                        x ^= x << 13;
+                        x ^= x >> 7;
+                        x ^= x << 17;
+                        let _ = store.insert(format!("hk{h}-{}", x % pool).as_bytes(), b"auto");
+                    }
+                    writes.fetch_add(1, Ordering::Relaxed);
+                }
+                end.wait();
+            }
+        }));
+    }
+    let wall = std::time::SystemTime::now().duration_since(std::time::UNIX_EPOCH).map(|d| d.as_nanos() as u64).unwrap_or(0);
+    let mut x = p.skew_seed | 1;
+    for r in 0..p.rounds as u64 {
+        round_no.store(r, Ordering::Release);
+        let key = format!("ck{r}").into_bytes();
+        let f = wall + p.ahead_s as u64 * 1_000_000_000 + r * 1_000_000;
+        start.wait();
+        x ^= x << 13;
+        x ^= x >> 7;
+        x ^= x << 17;
+        for _ in 0..(x % 300) {
+            std::hint::spin_loop();
+        }
+        let explicit = {
+            let _g = env::watch("clock explicit insert");
+            store.insert_with_timestamp(&key, b"explicit", Some(f))
+        };
+        end.wait();
+        out.rounds += 1;
+        // quiescent: every helper is parked at the next start barrier
+        if explicit.is_err() {
+            // refused by a helper's automatic write that was stamped above f? impossible: f is ahead
+            // of the wall clock; the only legitimate refusal is a same-key automatic write that
+            // had itself been stamped after an earlier absorbed future timestamp of the shard
+            continue;
+        }
+        out.explicit_accepted += 1;
+        let follow = {
+            let _g = env::watch("clock quiescent call");
+            match p.follow {
+                1 => store.delete(&key).map(|_| ()),
+                3 => store.compare_and_swap(&key, b"explicit", b"after").map(|_| ()),
+                _ => store.insert(&key, b"after").map(|_| ()),
+            }
+        };
+        if let Err(e) = follow {
+            let cur = store.verif_peek(&key).map(|p| p.timestamp);
+            out.failure = Some((
+                "quiescent-automatic-call-refused".into(),
+                format!(
+                    "round {r}: insert_with_timestamp(ck{r}, Some({f})) returned Ok while {} helper thread(s) drew automatic timestamps; after all of them had returned and were parked, the automatic {} on ck{r} was refused with {e:?} (stored timestamp {cur:?}): in real-time order it is the newest write",
+                    helpers,
+                    match p.follow { 1 => "delete", 3 => "compare_and_swap", _ => "insert" }
+                ),
+            ));
+            break;
+        }
+        if p.follow != 1 {
+            match store.verif_peek(&key) {
+                Some(pk) if pk.timestamp > f => {}
+                other => {
+                    out.failure = Some(("automatic-timestamp-not-above-explicit".into(), format!("round {r}: the automatic call after the accepted explicit timestamp {f} left ck{r} with timestamp {:?}", other.map(|p| p.timestamp))));
+                    break;
+                }
+            }
+        }
+    }
+    stop.store(true, Ordering::Release);
+    start.wait();
+    for h in handles {
+        let _ = h.join();
+    }
+    out.helper_writes = writes.load(Ordering::Relaxed);
+    out.same_key_auto_accepted = same_ok.load(Ordering::Relaxed);
+    match Arc::try_unwrap(store) {
+        Ok(s) => env::reap(s, path),
+        Err(_) => {}
+    }
     out
 }
